@@ -104,7 +104,7 @@ func c06Check(c *c06Ctx, in fmtInput) {
 	}
 
 	// ---- property oracle 3: same behaviour ----
-	if c.runs < c.maxRuns && !strings.Contains(src, "read") && !strings.Contains(src, "sleep") {
+	if c.runs < c.maxRuns && c06Runnable(src) {
 		c.runs++
 		o := SemOpts{StopAt: -1, YieldBudget: 20000}
 		evaluator.RandSource = rand.New(rand.NewSource(7)) // rand / rand1 must draw the same numbers in both runs
@@ -114,14 +114,12 @@ func c06Check(c *c06Ctx, in fmtInput) {
 		if a.GoPanic == "" && b.GoPanic == "" && len(a.Phases) == 1 && len(b.Phases) == 1 {
 			pa, pb := a.Phases[0], b.Phases[0]
 			differ := pa.Class != pb.Class || joinLines(pa.Trace) != joinLines(pb.Trace)
-			if pa.Class == "budget" && pb.Class == "budget" {
-				// cut by the yield budget: blank lines are EmptyStmt nodes that yield too, so the two runs
-				// are cut at different points; what they did must agree as far as both got
-				n := len(pa.Trace)
-				if len(pb.Trace) < n {
-					n = len(pb.Trace)
-				}
-				differ = joinLines(pa.Trace[:n]) != joinLines(pb.Trace[:n])
+			if pa.Class == "budget" || pb.Class == "budget" {
+				// cut by the yield budget: blank lines are EmptyStmt nodes that yield too, so the two runs are cut
+				// at different points (or only one is cut) and a cut run still prints its test summary:
+				// inconclusive, not compared
+				differ = false
+				r.Dist("run:cut-by-budget-not-compared")
 			}
 			if differ {
 				r.Violate(Violation{Kind: "property", Key: "formatted-program-behaves-differently",
@@ -135,6 +133,18 @@ func c06Check(c *c06Ctx, in fmtInput) {
 	if len(r.Samples) < 4 && strings.Contains(in.Kind, "decorated") && len(src) < 600 {
 		r.Sample(map[string]any{"kind": in.Kind, "source": src, "formatted": formatted, "tokens": len(fToks)})
 	}
+}
+
+// c06Runnable: programs that read, sleep, or hold the generator's "special" numbers are not executed:
+// `[1 2] * 9007199254740992` or a loop to 2^63 never finishes between two yields (the budget cannot cut it)
+// and exhausts memory. Formatting them is still checked.
+func c06Runnable(src string) bool {
+	for _, bad := range []string{"read", "sleep", "9007199254740992", "9223372036854775808", "/0", "/ 0", "% 0", "%0"} {
+		if strings.Contains(src, bad) {
+			return false
+		}
+	}
+	return true
 }
 
 // dropNops removes the (nop) placeholders (EmptyStmt: blank lines and comment
@@ -178,7 +188,7 @@ func runC06(cfg Config, r *Result) {
 	r.Rule = "inputs: hand-written layouts, every evy program in /repo (docs code blocks, *.evy), the same decorated, and type-directed generated programs " +
 		"(plain / decorated with comments at line ends and on own lines, blank-line runs, multi-line array and map literals with comments / widened horizontal white space / stray tokens after `end`); " +
 		"only inputs accepted by parser.Parse count; non-trivial = at least 6 words and a block, a comment or a multi-line literal; distinct = distinct source text"
-	c := &c06Ctx{model: model, r: r, maxRuns: cfg.N(700, 12000)}
+	c := &c06Ctx{model: model, r: r, maxRuns: cfg.N(700, 6000)}
 	if cfg.Replay != "" {
 		if b, err := os.ReadFile(cfg.Replay); err == nil {
 			var v struct {
@@ -193,7 +203,7 @@ func runC06(cfg Config, r *Result) {
 		}
 		r.Note("replay file %s has no string input", cfg.Replay)
 	}
-	for _, in := range fmtInputs(cfg, cfg.N(1600, 30000), true) {
+	for _, in := range fmtInputs(cfg, cfg.N(1600, 16000), true) {
 		c06Check(c, in)
 	}
 	// the recorded defect witnesses
